@@ -156,7 +156,7 @@ where
                 //   v = w / u  =>  [wmin / umax .. wmax / umin]
                 //
                 // The constraint is not dropped until all variables converge into numbers.
-                Ok(state
+                let state = state
                     .process_domain(
                         &wwalk,
                         Rc::new(FiniteDomain::from(
@@ -176,8 +176,15 @@ where
                             wmin.checked_div(umax).unwrap_or(vmin)
                                 ..=wmax.checked_div(umin).unwrap_or(vmax),
                         )),
-                    )?
-                    .with_constraint(self))
+                    )?;
+                if state.smap_ref().len() != smap.len() {
+                    // An operand was bound while the domains were narrowed: the walked
+                    // operands and their domains used above are stale, so the constraint
+                    // is run again instead of being stored unchecked.
+                    self.run(state)
+                } else {
+                    Ok(state.with_constraint(self))
+                }
             }
             // If all operators do not yet have domains, then keep the constraint until it can
             // be used to constrain some domains.
